@@ -596,7 +596,7 @@ func watchdog() {
 	for {
 		time.Sleep(2 * time.Second)
 		cur := progress.Load()
-		if cur != last {
+		if cur != last || bigWait.Load() {
 			last, lastT, lastCPU = cur, time.Now(), cpuTime()
 			continue
 		}
